@@ -450,7 +450,10 @@ func pkgIdentityByPath(c *core.Check) {
 			})
 		}
 	}
-	c.Min("package-identity-by-path", 1)
+	if n == 0 {
+		c.Bad("package-identity-by-path", golangRel+".(Resolver).getIDValue/no-path-comparison", "generator/golang/resolver.go",
+			"no place in the backend compares the import paths of two IDL files any more: whether a constant or enum value needs a package qualifier is decided by something else (scope identity, namespace text, package name), which differs from package identity for files that share a Go namespace or whose namespaces end in the same segment")
+	}
 }
 
 // ---------------------------------------------------------------------------------------------------------------------
